@@ -16,8 +16,6 @@ import (
 	"fmt"
 	"hash/crc32"
 	"io"
-	"os"
-	"runtime/debug"
 	"sort"
 
 	"github.com/youzan/ZanRedisDB/pkg/types"
@@ -30,17 +28,11 @@ import (
 
 var Engine = core.Engine{Name: "streamsim", Run: Run}
 
-// Every enumerated truncation point needs a fresh decoder, and every decoder
-// allocates a 1 MiB buffer: with the default pacing the collector would run
-// every fourth cut although almost nothing is live. Only the pacing changes
-// (bounded by a soft memory limit);
-// an explicit GOGC (the determinism self-test uses GOGC=10) is respected.
-func init() {
-	if os.Getenv("GOGC") == "" {
-		debug.SetGCPercent(1600)
-		debug.SetMemoryLimit(384 << 20)
-	}
-}
+// Note on speed: every enumerated truncation point needs a fresh decoder and
+// every decoder allocates a 1 MiB buffer, so with the default collector pacing
+// a collection runs every fourth cut although almost nothing is live. The
+// registration therefore starts the workers with GOGC=1600 GOMEMLIMIT=384MiB
+// (per-tier "env" of checks.json); nothing in the engine depends on it.
 
 const prop = "C16"
 
@@ -85,6 +77,7 @@ type run struct {
 	corrupts    []string
 	oneByte     int
 	inMain      bool
+	cutErr      error // how a cut connection ends for the reader: nil = io.EOF, else a reset
 }
 
 type ctxSnap struct {
@@ -398,7 +391,7 @@ func (r *run) complete(k int) int {
 // return the completely delivered messages as sent, then an error.
 func (r *run) checkCut(k int, sizes []int, eofWithData bool) bool {
 	fast := k - 2048
-	rd := &pipeReader{data: r.stream[:k], sizes: sizes, fastUntil: fast, eofWithData: eofWithData}
+	rd := &pipeReader{data: r.stream[:k], sizes: sizes, fastUntil: fast, eofWithData: eofWithData, endErr: r.cutErr}
 	dec := r.newDecoder(rd)
 	want := r.complete(k)
 	n := 0
@@ -434,6 +427,12 @@ func (r *run) checkCut(k int, sizes []int, eofWithData bool) bool {
 	}
 	r.oneByte += rd.oneByte
 	r.cutsDone++
+	if err == io.EOF && k < len(r.stream) && k != r.frames[want].start {
+		// not a violation (an error, not a message), but stream.go takes
+		// io.EOF for "all data is read out": io.ReadFull reports a cut that
+		// falls exactly between two header fields as a clean end
+		r.c.Probe("cut_inside_message_reported_as_clean_EOF")
+	}
 	r.c.Log("cut", "%d n=%d %s", k, n, errClass(err))
 	return true
 }
@@ -444,6 +443,11 @@ func (r *run) cutPass() {
 	L := len(r.stream)
 	sizes := r.drawSizes()
 	eofWithData := t.Choose(4) == 0
+	if t.Choose(4) == 1 {
+		r.cutErr = errPipeBroken
+		r.c.Probe("cut_ends_with_reset_error")
+	}
+	r.c.Log("cutcfg", "sizes=%v eofWithData=%v reset=%v", sizes, eofWithData, r.cutErr != nil)
 	seen := map[int]bool{}
 	var offs []int
 	add := func(k int) {
@@ -662,7 +666,7 @@ func (r *run) reconnectPass() {
 	saveSw, saveHb, saveW := g.cfg.SwitchPm, g.cfg.HbPm, g.cfg.WEv
 	for i := 0; i < n2; i++ {
 		if i == 0 && wouldContinue {
-			g.cfg.SwitchPm, g.cfg.HbPm, g.cfg.WEv = 0, 0, []int{1, 0, 0, 0, 0, 0}
+			g.cfg.SwitchPm, g.cfg.HbPm, g.cfg.WEv = 0, 0, []int{1, 0, 0, 0, 0, 0, 0}
 			s := g.nextAppend()
 			g.cfg.SwitchPm, g.cfg.HbPm, g.cfg.WEv = saveSw, saveHb, saveW
 			seq = append(seq, s)
@@ -860,12 +864,14 @@ func (r *run) corruptOnce() {
 		if fd == nil {
 			return
 		}
-		// production limit 512 MiB = 2^29: any of the upper four bytes nonzero
-		// is beyond it; in byte 4 a value >= 0x21 is (>= 0x21000000 > 2^29)
-		b := t.Choose(5)
+		// far beyond the production limit of 512 MiB: one of the two upper
+		// bytes set (>= 2^49). Lengths just above the limit are the business
+		// of sizeLimitPass (with a lowered limit); here a decoder without the
+		// check must fail in a recoverable way, not by exhausting memory.
+		b := t.Choose(2)
 		v := 1 + t.Choose(255)
-		if b == 4 && v < 0x21 {
-			v = 0x21
+		if b == 1 && v < 2 {
+			v = 2
 		}
 		off, newByte, name, exact = f.start+fd.off+b, byte(v), "length-beyond-limit", true
 	case cPayload:
